@@ -284,7 +284,13 @@ Fixpoint dec_pairs (n : nat) (l : list Z) : list (nat * str) * list Z :=
             end
   end.
 
-Inductive op := OAssign (excl : option (list nat)) (src : list (nat * str)) | ODefaults | OReset.
+(* OAdd ids     = ParsedOptions::add(name) for each id (any name: an option of the context or a FOREIGN name, id >= number of options);
+   OAssign2 src = ParsedOptions::assign of a source that belongs to a SECOND context on the same ParsedOptions object; the second
+                  context of the harness holds FOREIGN_OPTS plain std::string options named o<n> .. o<n+FOREIGN_OPTS-1> (n = number of
+                  options of the first context) - exactly what [desc_of] / [kind_of] answer outside the first context. *)
+Inductive op := OAssign (excl : option (list nat)) (src : list (nat * str)) | ODefaults | OReset
+              | OAdd (ids : list nat) | OAssign2 (src : list (nat * str)).
+Definition FOREIGN_OPTS : nat := 6.
 
 Fixpoint dec_ops (fuel : nat) (l : list Z) : list op :=
   match fuel with
@@ -300,6 +306,8 @@ Fixpoint dec_ops (fuel : nat) (l : list Z) : list op :=
           end
       | 2 :: r => ODefaults :: dec_ops f r
       | 3 :: r => OReset :: dec_ops f r
+      | 4 :: k :: r => let '(ids, r1) := dec_ids (Z.to_nat k) r in OAdd ids :: dec_ops f r1
+      | 5 :: np :: r => let '(ps, r1) := dec_pairs (Z.to_nat np) r in OAssign2 ps :: dec_ops f r1
       | _ => []
       end
   end.
@@ -337,6 +345,12 @@ Fixpoint run_ops (parsed : list nat) (cs : nat -> ccell) (ops : list op) : list 
       let '(e, cs') := assign_defaults _ _ desc_of c_parser c_store c_fail parsed cs (seq 0 (length copts)) in
       obs_err e ++ [0] ++ obs_state parsed cs' ++ run_ops parsed cs' r
   | OReset :: r => run_ops [] cs r
+  | OAdd ids :: r => run_ops (fold_left (fun p o => insert o p) ids parsed) cs r     (* no observation of its own *)
+  | OAssign2 src :: r =>
+      let n := length copts in
+      let src' := filter (fun p => (n <=? fst p)%nat && (fst p <? n + FOREIGN_OPTS)%nat) src in
+      let '(e, p, cs', f) := assign_source _ _ desc_of c_parser c_store c_fail parsed None cs src' in
+      obs_err e ++ [b2z f] ++ obs_state p cs' ++ run_ops p cs' r
   end.
 End Run.
 
